@@ -14,7 +14,7 @@
 //! exhausted script is end of file.  After end of file / an error has been returned the reader
 //! serves POISON (3 x up to 7 bytes 0xEE, then Ok(0)): a helper that keeps reading shows it in its
 //! result.  Scripted writer: "a" k accepts min(k, offered), "zero" = Ok(0), "eintr", "err" k;
-//! exhausted script accepts everything; after Ok(0) / an error everything is accepted (and is
+//! exhausted script accepts everything; after an error everything is accepted (and is
 //! visible in the sink as surplus).
 use std::io::BufRead;
 use tiny_std::io::{Read, Write};
@@ -154,7 +154,8 @@ impl Write for Scripted {
                 Ok(n)
             }
             "zero" => {
-                self.term = true;
+                // not terminal for the writer: an implementation that tries again is served the
+                // rest of the script
                 self.calls.push((m, "zero", 0));
                 Ok(0)
             }
